@@ -37,7 +37,7 @@ func (c13) Assumptions() []string {
 }
 
 var c13Payload = []string{"string", "error", "nil-map write", "nil dereference", "index out of range", "custom struct", "panic(nil)", "1 MiB string", "pointer", "String() panics", "http.ErrAbortHandler"}
-var c13Kinds = []string{"unary", "notification", "channel", "reverse", "custom", "after-cancel", "concurrent", "batch"}
+var c13Kinds = []string{"unary", "notification", "channel", "reverse", "custom", "after-cancel", "concurrent", "batch", "stalled-peer"}
 
 func (c13) Plan(tier string, seed int64) []core.Scenario {
 	var out []core.Scenario
@@ -49,7 +49,10 @@ func (c13) Plan(tier string, seed int64) []core.Scenario {
 		for pk := range c13Payload {
 			for _, ck := range c13Kinds {
 				for _, tr := range []string{"ws", "http"} {
-					if (ck == "channel" || ck == "reverse" || ck == "custom" || ck == "after-cancel" || ck == "concurrent") && tr == "http" {
+					if (ck == "channel" || ck == "reverse" || ck == "custom" || ck == "after-cancel" || ck == "concurrent" || ck == "stalled-peer") && tr == "http" {
+						continue
+					}
+					if ck == "stalled-peer" && pk != 7 && pk != 0 {
 						continue
 					}
 					if ck == "batch" && tr == "ws" {
@@ -263,6 +266,31 @@ func (c13) server(sc core.Scenario, r *core.R) {
 				} else if e.ID != i+1 || e.Result != svc.Reply(toks[i]) {
 					r.Violate("sibling-disturbed", "%s: healthy batch element %d next to a panicking one was answered with id=%d result=%q error=%s", label, i, e.ID, e.Result, core.Trunc(string(e.Error), 100))
 				}
+			}
+		}
+	case "stalled-peer":
+		// another peer makes 32 handlers panic with a 1 MiB payload each and never reads the replies: its
+		// connection's writer is stuck. Panics and other error replies on the remaining connections are
+		// unaffected.
+		raw, _, derr := websocket.DefaultDialer.Dial("ws://"+host.Addr, http.Header{})
+		if derr != nil {
+			r.Inconclusive("raw dial: %v", derr)
+			break
+		}
+		defer raw.Close()
+		for i := 0; i < 32; i++ {
+			raw.WriteMessage(websocket.TextMessage, []byte(fmt.Sprintf(`{"jsonrpc":"2.0","id":%d,"method":"S.Boom","params":[%q,7]}`, i+1, Tok("z"))))
+		}
+		time.Sleep(500 * time.Millisecond)
+		for i, c := range []*svc.Client{main, other, main} {
+			c := c
+			t := Tok("x")
+			o := Go(t, func() (string, error) { return c.Boom(bg, t, pk) })
+			if !o.Wait(core.Grace) {
+				r.Violate("panic-call-hang", "%s: while another peer's connection is stuck with 32 MiB of unread panic replies, a panicking call on connection %d got no reply", label, i)
+				break
+			} else if ok, why := mentionsPanic(o.Err, pk, t); !ok {
+				r.Violate("panic-not-reported", "%s: %s", label, why)
 			}
 		}
 	case "notification":
